@@ -995,7 +995,7 @@ pub fn run_c13(tier: &str, seed: u64, shard: usize, of: usize, only_job: Option<
                 c13_async_stop(&b, spec, depth, job, k, &f_log, &mut rng, &mut distinct_cuts);
             }
             // the clock as interrupter: movetime and a few milliseconds on the clock
-            for k in 0..(if thorough { 16 } else { 6 }) {
+            for k in 0..(if thorough { 16 } else { 8 }) {
                 c13_clock(&b, spec, depth, job, k, &f_log, &mut distinct_cuts);
             }
         }
@@ -1027,13 +1027,19 @@ pub fn run_c13(tier: &str, seed: u64, shard: usize, of: usize, only_job: Option<
         }
         done += 1;
         out::count("C13.clock_pass_positions", 1);
-        for (k, ms) in [1u128, 19, 25, 45, 70, 110, 170].iter().enumerate() {
+        for (k, ms) in [1u128, 19, 25, 45, 70, 110, 170, 1, 30, 60, 120, 2, 40, 90].iter().enumerate() {
             clear_tt();
             verif_hooks::tt_record_start();
-            let limits = match k % 3 {
-                0 => SearchLimits::new().white_time(Some(*ms)).black_time(Some(*ms)),
-                1 => SearchLimits::new().white_time(Some(*ms)).black_time(Some(*ms)).white_increment(Some(0)).black_increment(Some(0)),
-                _ => SearchLimits::new().white_increment(Some(*ms / 10)).black_increment(Some(*ms / 10)),
+            let limits = match k {
+                0 | 3 | 6 => SearchLimits::new().white_time(Some(*ms)).black_time(Some(*ms)),
+                1 | 4 => SearchLimits::new().white_time(Some(*ms)).black_time(Some(*ms)).white_increment(Some(0)).black_increment(Some(0)),
+                2 | 5 => SearchLimits::new().white_increment(Some(*ms / 10)).black_increment(Some(*ms / 10)),
+                // one-sided clocks: only White's, only Black's, one side's time and the other's increment
+                7 | 8 => SearchLimits::new().white_time(Some(*ms)),
+                9 => SearchLimits::new().white_time(Some(*ms)).white_increment(Some(1)),
+                10 | 11 => SearchLimits::new().black_time(Some(*ms)),
+                12 => SearchLimits::new().black_time(Some(*ms)).black_increment(Some(1)),
+                _ => SearchLimits::new().white_time(Some(*ms)).black_increment(Some(1)),
             };
             let how = format!("game clock {limits:?}");
             let r = engine_search(&b, Some(limits), Some(depth));
@@ -1155,9 +1161,15 @@ fn c13_clock(b: &Board, spec: &PosSpec, depth: u8, job: usize, k: u64, f_log: &[
     verif_hooks::tt_record_start();
     let limits = if k % 2 == 0 {
         SearchLimits::new().movetime(Some(u128::from(k / 2)))
-    } else {
+    } else if k % 4 == 1 {
         // time manager: clock/20 + increment/2 milliseconds for the side to move
         SearchLimits::new().white_time(Some(u128::from(k) * 10)).black_time(Some(u128::from(k) * 10))
+    } else {
+        // only one side's clock is given (a GUI may send just the mover's, or just one of them)
+        match k % 8 {
+            3 => SearchLimits::new().white_time(Some(u128::from(k) * 10)).white_increment(Some(0)),
+            _ => SearchLimits::new().black_time(Some(u128::from(k) * 10)).black_increment(Some(0)),
+        }
     };
     let how = format!("clock limits {limits:?}");
     let r = engine_search(b, Some(limits), Some(depth));
